@@ -62,6 +62,12 @@ THEOREMS = [
     "Bin1d.decimalGrid_regular", "Bin1d.decimalGrid_mem_allowed", "Bin1d.decimalGrid_edge_own_bin",
     "Bin1d.cleanerRange_bins_ok", "Bin1d.decimalGridOK_of_numeric", "Bin1d.globalLon_ok", "Bin1d.globalLat_ok",
     "Bin1d.global_lon_edges", "Bin1d.global_lat_edges",
+    # Properties/C02_Calls.lean: the magnitude call sites inherit the property
+    "Bin1d.getMagIdx_mem_allowed", "Bin1d.open_top_last_bin", "Bin1d.getMagnitudeIndex_ok_iff", "Bin1d.getMagnitudeIndex_range",
+    "Bin1d.getMagnitudeIndex_accepts", "Bin1d.magnitudeCounts_entry", "Bin1d.magnitudeCounts_length",
+    "Bin1d.magnitudeCounts_bin_allowed", "Bin1d.magnitudeBins_regular", "Bin1d.createSpaceMagnitudeRegion_spec",
+    # Properties/C02_Int.lean: integer points on integer edges are binned exactly
+    "Bin1d.quotF_cfgInt", "Bin1d.bin1dCore_cfgInt", "Bin1d.floor_fl64_div_int", "Bin1d.bin1dF_int_exact",
 ]
 TRUSTED = ["Lean 4.33 kernel", "axioms: propext, Classical.choice, Quot.sound at most",
            "Soft64.fl64/fl32 is IEEE-754 round-to-nearest-even and numpy + - * / floor on float64/float32 are that arithmetic "
@@ -76,7 +82,10 @@ RULE = ("grids: decimal grids with 1-4 decimals (|start| << step, ~ step, >> ste
         "every edge (sampled edges on grids > 400 in the model pass, all edges in the oracle pass), +-1,2,3,4,8,...,4096 ulps "
         "around edges, midpoints, below first, around and above the upper edge of the last bin, float64 / float32 / int64 arrays "
         "and scalars; a case is one (grid, mode, value); non-trivial = value on an edge or within 4096 ulps of one; distinct by "
-        "(grid, mode, value)")
+        "(grid, mode, value)"
+        " Call sites (harness/c02_calls.py): CSEPCatalog.get_mag_idx / magnitude_counts(mag_bins, tol, retbins), GriddedForecast.get_magnitude_index(mags, tol) "
+        "for float64 / list / float32 / int64 magnitudes, create_space_magnitude_region, on the CSEP grid, magnitude_bins grids and random decimal grids with "
+        "tol in {None, 1e-5, 1e-9, 0.0}, magnitudes on and around edges and 0.5 / 2.5 / 3 tolerances below them; judged by the exact oracle, not against bin1d_vec")
 
 EPS = {"f64": Fraction(1, 2 ** 52), "f32": Fraction(1, 2 ** 23), "i64": Fraction(0)}
 NPDT = {"f64": numpy.float64, "f32": numpy.float32, "i64": numpy.int64}
@@ -411,6 +420,9 @@ def flush(ctx):
                                        f"({sorted(al_py)}) on {case0} p={val_repr(pd, x)}")
                 if im not in al:
                     run.mismatch(dict(case0, p=[val_repr(pd, x)]), im, t)
+        elif item[0] == "calls":
+            from . import c02_calls
+            c02_calls.flush_calls(ctx, item, outs[item[1]])
         elif item[0] == "hyp":
             _, qi, case0, cnt = item
             res = outs[qi]
@@ -969,6 +981,13 @@ def run_case(ctx, case):
         discretize_arg_checks(ctx)
     elif kind in ("discretize", "api"):
         api_checks(ctx)
+    elif kind == "calls":
+        from . import c02_calls
+        import sys
+        if "grid" in case and case["grid"].get("kind"):
+            c02_calls.check_calls_on_grid(ctx, sys.modules[__name__], build_grid(case["grid"]), "replay")
+        else:
+            c02_calls.run_calls(ctx, sys.modules[__name__], "quick")
     else:
         raise ValueError(f"unknown case kind {kind}")
 
@@ -1088,6 +1107,9 @@ def run(run, rng, tier):
     run.extra["shipped_grids_covered"] = covered
     run.extra["shipped_grids_not_covered"] = missing
     api_checks(ctx)
+    from . import c02_calls
+    import sys
+    c02_calls.run_calls(ctx, sys.modules[__name__], tier)
     # generated grids
     n_dec = 90 if quick else 300
     for i in range(n_dec):
